@@ -30,6 +30,8 @@ pub enum Op {
     Pair,
     /// a slow call whose connection the peer drops while it is in flight
     CallKilled,
+    /// a call whose deadline has already expired when it is issued (`grpc-timeout: 0n`)
+    CallZero,
 }
 
 /// Connector wrapper that notes every `call` not preceded by a `poll_ready` that returned
@@ -115,7 +117,7 @@ pub fn run(cfg: &RunCfg) -> Ctx {
     all.merge(par_cases(cfg, "sampled", cfg.n(1200, 16 * 20_000), || (), |_, rng, ctx, _| {
         let lazy = rng.bool();
         let o: Vec<bool> = (0..rng.urange(0, 8)).map(|_| rng.chance(3, 5)).collect();
-        let p: Vec<Op> = (0..rng.urange(1, 10)).map(|_| match rng.below(9) { 0 | 1 => Op::Kill, 2 => Op::TwoCalls, 3 => Op::Pair, 4 => Op::CallKilled, _ => Op::Call }).collect();
+        let p: Vec<Op> = (0..rng.urange(1, 10)).map(|_| match rng.below(10) { 0 | 1 => Op::Kill, 2 => Op::TwoCalls, 3 => Op::Pair, 4 => Op::CallKilled, 5 => Op::CallZero, _ => Op::Call }).collect();
         // endpoint options that select other code paths of the channel construction
         let opts = rng.below(16) as u32 | if rng.chance(1, 8) { 0x101 } else { 0 };
         scenario(rng, ctx, lazy, o, p, opts);
@@ -132,6 +134,7 @@ pub fn run(cfg: &RunCfg) -> Ctx {
     all.floor("model.kills", 10);
     all.floor("model.calls_killed_in_flight", 5);
     all.floor("model.concurrent_pairs", 10);
+    all.floor("model.zero_timeout_calls", 10);
     all.floor("model.dead_on_arrival_peer", 5);
     all
 }
@@ -382,6 +385,36 @@ fn scenario(rng: &mut Rng, ctx: &mut Ctx, lazy: bool, outcomes: Vec<bool>, ops: 
                     connected = !killed && consumed.last().copied().unwrap_or(connected);
                     quiesce().await;
                 }
+                Op::CallZero => {
+                    // the call itself may end any definite way (expired, or UNAVAILABLE when the
+                    // attempt it triggered failed); what matters is that it ends, and that whatever
+                    // it did to the connection is what the following calls find
+                    call_no += 1;
+                    let before = st.lock().unwrap().invocations;
+                    let mut req = tonic::Request::new(Msg { data: vec![7], seq: call_no, tag: String::new() });
+                    req.set_timeout(Duration::ZERO);
+                    let r = match tokio::time::timeout(Duration::from_secs(60), client.unary(req)).await {
+                        Err(_) => return Err(("hang".into(), format!("call {} (deadline already expired) did not resolve within 60 virtual seconds", call_no))),
+                        Ok(r) => r,
+                    };
+                    let consumed: Vec<bool> = {
+                        let s = st.lock().unwrap();
+                        s.consumed[before as usize..].to_vec()
+                    };
+                    match &r {
+                        Ok(_) if !connected && !consumed.iter().any(|o| *o) => return Err(("ok-without-connection".into(), format!("call {} succeeded although every attempt failed", call_no))),
+                        Ok(_) => {}
+                        Err(s) => {
+                            ctx_codes.lock().unwrap().push(format!("zero-timeout:{:?}", s.code()));
+                            if consumed.iter().any(|o| !*o) {
+                                had_failure = true;
+                            }
+                        }
+                    }
+                    connected = consumed.last().copied().unwrap_or(connected);
+                    states.push("zero-timeout-call".into());
+                    quiesce().await;
+                }
                 Op::Call | Op::TwoCalls => {
                     let reps = if *op == Op::TwoCalls { 2 } else { 1 };
                     for _ in 0..reps {
@@ -467,6 +500,7 @@ fn scenario(rng: &mut Rng, ctx: &mut Ctx, lazy: bool, outcomes: Vec<bool>, ops: 
             "unavailable" => ctx.count("model.call_failed_unavailable"),
             "eager-initial-failure" => ctx.count("model.eager_initial_failure"),
             "kill" => ctx.count("model.kills"),
+            "zero-timeout-call" => ctx.count("model.zero_timeout_calls"),
             "killed-in-flight" => ctx.count("model.calls_killed_in_flight"),
             x if x.starts_with("pair-") => ctx.count("model.concurrent_pairs"),
             _ => {}
